@@ -181,35 +181,84 @@ def native_hang(inp=HANG_INPUT, seconds=20):
     except NativeCrash as e:
         return True, "native WHFast step of %r (public API, one reb_simulation_step) does not return within %d s (killed): the argument-reduction loop of the Stumpff kernel spins on a non-finite argument" % (inp, seconds)
 
+def native_many_periods():
+    """public API: one WHFast step of hundreds of orbital periods on an elliptic orbit (the Stumpff argument needs > 10 halvings)
+    against the closed-form Kepler solution"""
+    import c11
+    N_ = c11.nat(); L = N_.L; bad = []; n = 0
+    for e in (0.0, 0.3, 0.9):
+        for periods in (417.3, -911.7, 911.7):
+            a = 1.0; M0 = 0.7; m0 = 1.0
+            ns = N_.create()
+            try:
+                ns.add(m=m0)
+                err, p = c11.native_particle(1.0, m0, 0.0, a, e, 0.2, 0.3, 0.4, 0.0)
+                # start at true anomaly 0 (pericentre) for a simple reference: after dt the mean anomaly is n dt
+                ns.add(**p)
+                P_ = 2 * math.pi * math.sqrt(a ** 3 / m0); dt = periods * P_
+                ns.set('integrator', L.enumerators['REB_INTEGRATOR_WHFAST']); ns.set('dt', dt)
+                ns.call('reb_simulation_step'); n += 1
+                s1 = {c: ns.particle(1).get(c) - ns.particle(0).get(c) for c in ('x', 'y', 'z', 'vx', 'vy', 'vz')}
+                err2, o = c11.native_orbit(dict(s1, m=0.0), dict(m=m0))
+                Mexp = math.fmod(2 * math.pi * periods, 2 * math.pi)
+                dM = math.fmod(o['M'] - Mexp, 2 * math.pi); dM = min(abs(dM), abs(abs(dM) - 2 * math.pi))
+                if not (abs(o['a'] - a) < 1e-6 and abs(o['e'] - e) < 1e-6 and (e == 0.0 or dM < 1e-4 * abs(periods) / 100)): bad.append((dict(e=e, periods=periods), dict(a=o['a'], e=o['e'], M=o['M'], M_expected=Mexp % (2 * math.pi))))
+            finally:
+                ns.free()
+    return bool(bad), "native WHFast steps of hundreds of periods vs the closed-form orbit (%d cases): %s" % (n, ("off the orbit: %r" % (bad[0],)) if bad else "all on the orbit")
+
 def run_termination(u):
     fn = u['fn']; rep = Report(); label = "%s argument-reduction loop " % fn
     dom = FP(); seen = []
+    CAP = u.get('cap', 20)
     class Done(Exception): pass
     def note(t):
         if not any(t is q or (z3.is_expr(t) and z3.is_expr(q) and t.eq(q)) for q in seen): seen.append(t)
-        if len(seen) >= 2: raise Done()
+        if len(seen) >= CAP: raise Done()
     orig = dom.libm
     def libm(name, args):
         if name == 'fabs' and not isinstance(args[0], float): note(args[0])
         return orig(name, args)
     dom.libm = libm
-    ctx = AllTrueCtx(); I = new_interp(dom, ctx)
+    ctx = AllTrueCtx(); I = new_interp(dom, ctx); I.loop_bound = 4 * CAP + 50
     I.stubs['@fastabs'] = lambda I_, x: (abs(x) if isinstance(x, float) else (note(x), z3.fpAbs(x))[1])
     z = dom.fresh('z')
     cs = I.mem.alloc(8 * 6, 'cs', 'harness', zero=True)
+    returned = False
     try:
-        I.call('@' + fn, [cs, z]); rep.errors.append(label + "loop not entered twice"); return rep
+        I.call('@' + fn, [cs, z]); returned = True
     except Done: pass
     rep.paths += 1; rep.add_interp(I)
+    if len(seen) < 2:
+        rep.errors.append(label + "loop not entered twice"); return rep
     z0, z1 = seen[0], seen[1]
     ob = Obligations(rep, Prover(t_inproc_ms=u.get('t_ms', 60000), use_external=True, t_ext_s=120), label)
     def on_sat(model):
         bad, detail = native_hang()
         return bad, 'C03:stumpff:nonterminating-reduction', detail + " (solver model: z = %s)" % model[z], dict(kind='hang')
     # ranking argument: while the loop continues |z| strictly decreases; there are finitely many doubles, so it terminates
-    ob.prove("whenever the loop body runs, |z| strictly decreases (ranking function on binary64: termination for EVERY double, including inf and NaN)", z3.fpLT(z3.fpAbs(z1), z3.fpAbs(z0)), list(ctx.pc), on_sat=on_sat, domain='FP(11,53)', sample=dict(loop_conditions=[str(c)[:120] for c in ctx.pc]))
-    ob.witness("loop entered", list(ctx.pc))
+    first_iter = [c for c in ctx.pc if True][:8]
+    ob.prove("whenever the loop body runs, |z| strictly decreases (ranking function on binary64: termination for EVERY double, including inf and NaN)", z3.fpLT(z3.fpAbs(z1), z3.fpAbs(z0)), first_iter[:_first_iteration_conditions(ctx.pc, z1)], on_sat=on_sat, domain='FP(11,53)', sample=dict(loop_conditions=[str(c)[:120] for c in ctx.pc[:4]]))
+    if returned:
+        # every data-dependent loop condition was decided 'continue', yet the loop ended after len(seen)-1 halvings: the exit must be
+        # justified by the argument having become small (or non-finite)
+        zl = seen[-1]
+        def on_sat2(model):
+            bad, detail = native_many_periods()
+            return bad, 'C03:stumpff:reduction-stops-early', detail + " (solver model: z = %s, %d halvings)" % (model[z], len(seen) - 1), dict(kind='many_periods')
+        ob.prove("the reduction only stops once |z| <= 0.1 (or z is not finite): after %d halvings with every loop condition still true the code leaves the loop" % (len(seen) - 1),
+                 z3.Or(z3.fpLEQ(z3.fpAbs(zl), z3.FPVal(0.1, dom.sort)), z3.fpIsInf(zl), z3.fpIsNaN(zl)), list(ctx.pc), on_sat=on_sat2, domain='FP(11,53)')
+    ob.witness("loop entered", list(ctx.pc[:2]))
     return rep
+
+def _first_iteration_conditions(pc, z1):
+    """number of leading path conditions that do not mention the second abscissa (= the conditions under which the first loop body ran)"""
+    s1 = str(z1)
+    n = 0
+    for c in pc:
+        if s1 in str(c): break
+        n += 1
+    return max(n, 1)
 
 def replay_hang(data):
     return native_hang()
